@@ -1145,6 +1145,33 @@ impl VisitMut for Pass {
         }
         b.stmts = out;
         visit_mut::visit_block_mut(self, b);
+        // anchors "after_loop N": right after the statement that is loop N (numbered during the recursion above)
+        let mut out: Vec<Stmt> = vec![];
+        for st in b.stmts.drain(..) {
+            let mut ordinal: Option<usize> = None;
+            let body: Option<&Block> = match &st {
+                Stmt::Expr(Expr::While(w), _) => Some(&w.body),
+                Stmt::Expr(Expr::ForLoop(f), _) => Some(&f.body),
+                _ => None,
+            };
+            if let Some(bd) = body {
+                if let Some(Stmt::Macro(sm)) = bd.stmts.first() {
+                    if macro_name(&sm.mac) == "__vp_loop_spec" {
+                        ordinal = sm.mac.tokens.to_string().trim().parse().ok();
+                    }
+                }
+            }
+            out.push(st);
+            if let Some(n) = ordinal {
+                for k in 0..self.proofs.len() {
+                    if !self.used_proofs[k] && self.proofs[k].0 == format!("after_loop {}", n) {
+                        self.used_proofs[k] = true;
+                        out.push(Self::proof_stmt(k));
+                    }
+                }
+            }
+        }
+        b.stmts = out;
     }
 
     fn visit_stmt_mut(&mut self, s: &mut Stmt) {
